@@ -1255,6 +1255,25 @@ class Interp:
         i = E.current().fork(conds + [none])
         return _MISSING if i == len(keys) else keys[i]
 
+    def unique_key_value(self, key):
+        """the one concrete value a symbolic key can take on this path, or _MISSING (decided by the solver)"""
+        from .strings import StrVec
+        from .values import SymInt, bterm
+        import z3
+        eng = E.current()
+        m = eng.model()
+        if m is None:
+            return _MISSING
+        if isinstance(key, StrVec):
+            v = key.eval(m)
+        elif isinstance(key, SymInt):
+            v = int(E.z3val(m, key.term))
+        else:
+            return _MISSING
+        if eng.must_hold(bterm(sym_eq(key, v))):
+            return v
+        return _MISSING
+
     def setitem(self, obj, key, value):
         if isinstance(obj, Sym):
             obj[key] = value
@@ -1267,6 +1286,8 @@ class Interp:
                 return
             if isinstance(obj, dict):
                 k = self.dict_find_key(obj, key)
+                if k is _MISSING:
+                    k = self.unique_key_value(key)      # a new key whose value the path condition has fixed
                 if k is _MISSING:
                     raise Unmodelled("storing under a new symbolic key in a real dict (%s)" % to.__name__)
                 key = k
